@@ -104,6 +104,15 @@ func caseRand(seed int64, idx int) *rand.Rand {
 	return rand.New(rand.NewSource(seed*1000003 + int64(idx)*7919 + 17))
 }
 
+// hangIsFailure: the concurrency suites, where an intermittent hang is an intermittent deadlock of the code under test
+func hangIsFailure(suite string) bool {
+	switch suite {
+	case "c08", "c08free", "c08race", "c16", "c20conc":
+		return true
+	}
+	return false
+}
+
 // runGuarded runs one case with panic recovery and a watchdog.
 func runGuarded(s *Suite, ops []string) CaseResult {
 	to := s.CaseTimeout
@@ -343,7 +352,9 @@ func main() {
 			s.CaseTimeout = saved
 			if len(r.Outs) == len(cases[i].ops) {
 				r.Tags = append(r.Tags, "watchdog_rerun")
-				if !slow && len(r.Fails) == 0 && alone*30 < limit {
+				// only the suites that run the code under test on several goroutines: a suite doing real disk I/O (pebble) or a
+				// single-threaded one can stall for minutes on a machine saturated by other checks without any hang in the code
+				if !slow && len(r.Fails) == 0 && alone*30 < limit && hangIsFailure(s.Name) {
 					// Machine load slows a case down by a small factor, not by 30x: a case that ran into the watchdog among the
 					// other workers but finishes that quickly on its own did not merely run slowly - it hung once (an
 					// intermittent deadlock or lost wake-up), which no property tolerates.
